@@ -57,7 +57,8 @@ theorem marker_corrupt (hm : marker.length = 16) (hc : ∀ x, codec.decompress (
 
 /-- an altered magic makes opening fail -/
 theorem magic_corrupt (rcfg : Cfg) (m : Bytes) (hm4 : m.length = 4) (hne : m ≠ magic) (rest : Bytes) :
-    ∃ e, readHeader rcfg (m ++ rest) = .error e := by
+    ∃ e, ∀ fuel, readHeader rcfg fuel (m ++ rest) = .error e := by
+  refine ⟨.other, fun fuel => ?_⟩
   unfold readHeader
   rw [takeExact_append' 4 m rest hm4]
   simp [hne]
